@@ -72,6 +72,30 @@ class _CanonIf(ast.NodeTransformer):
             node.test, node.body, node.orelse = node.test.operand, node.orelse, node.body
         return node
 
+    def _loop(self, node):
+        """Guard clauses inside a loop body are analysed in their nested form:  `if c: S...; continue` followed by the rest R of the loop
+        body is `if c: S... else: R` (a `continue` skips exactly R).  Both styles of writing a loop body get one shape."""
+        self.generic_visit(node)
+        body = node.body
+        i = len(body) - 1
+        while i >= 0:
+            st = body[i]
+            if isinstance(st, ast.If) and not st.orelse and st.body and isinstance(st.body[-1], ast.Continue) and i < len(body) - 1:
+                rest = body[i + 1:]
+                s_ = st.body[:-1]
+                if s_:
+                    new = ast.copy_location(ast.If(test=st.test, body=s_, orelse=rest), st)
+                else:
+                    t = st.test
+                    neg = t.operand if (isinstance(t, ast.UnaryOp) and isinstance(t.op, ast.Not)) else ast.copy_location(ast.UnaryOp(op=ast.Not(), operand=t), t)
+                    new = ast.copy_location(ast.If(test=neg, body=rest, orelse=[]), st)
+                body[i:] = [new]
+            i -= 1
+        return node
+
+    visit_For = _loop
+    visit_While = _loop
+
     def visit_IfExp(self, node):
         self.generic_visit(node)
         while isinstance(node.test, ast.UnaryOp) and isinstance(node.test.op, ast.Not):
